@@ -19,6 +19,9 @@ func main() {
 	cfg := vc.ParseFlags()
 	rep := vc.NewReport(cfg)
 	switch cfg.Prop {
+	case "PROBE":
+		runProbe(cfg.Replay)
+		return
 	case "C01":
 		runC01(cfg, rep)
 	case "C03":
